@@ -890,9 +890,8 @@ impl SvgElement {
     /// when the position is resolved, until then the native ones do not locate the element.
     fn has_foreign_position(&self) -> bool {
         let foreign: &[&str] = match self.name.as_str() {
-            "rect" | "box" | "point" | "use" | "reuse" | "image" | "svg" | "foreignObject" => {
-                &["cx", "cy", "x1", "y1", "x2", "y2"]
-            }
+            "rect" | "box" | "point" | "text" | "use" | "reuse" | "image" | "svg"
+            | "foreignObject" => &["cx", "cy", "x1", "y1", "x2", "y2"],
             "circle" | "ellipse" => &["x", "y", "x1", "y1", "x2", "y2"],
             "line" => &["x", "y", "cx", "cy", "width", "height"],
             // drawn from `points` / `d` and moved by a transform computed from these
